@@ -61,6 +61,8 @@ def oracle_C10(col):
             return
         col.stats['failing_calls'] += 1
         col.stats['fail:' + op[0]] += 1
+        if o.side:
+            col.add(T, 'failed-call-observable', [pre.names, opj(op), o.exc, o.side], pre, op, outcome=o.as_json())
         sigma = explore.reduced_alphabet(T)
         before = cache.get(T, tuple(pre.hist), sigma)
         after = impl.phi(T, list(pre.hist) + [op], _k(), sigma)
